@@ -61,10 +61,15 @@ static int parseConvertElement(MPT_INTERFACE(convertable) *conv, MPT_TYPE(type) 
 	}
 	if (type == MPT_type_toVector('c')) {
 		while (isspace(*txt)) ++txt;
-		while (!isspace(*txt)) ++txt;
-		it->restore = (char *) txt;
-		it->save = *txt;
-		*it->restore = 0;
+		while (*txt && !isspace(*txt)) ++txt;
+		/* word ends with the text, no separator to replace */
+		if (txt >= it->end) {
+			it->restore = 0;
+		} else {
+			it->restore = (char *) txt;
+			it->save = *txt;
+			*it->restore = 0;
+		}
 		if (dest) {
 			struct iovec *vec = dest;
 			vec->iov_base = it->val;
